@@ -56,7 +56,7 @@ def len_program(d):
     return PRELUDE + "fn main() {\n    " + body + "\n}\n"
 
 
-ELEM = {"u8": "u8", "string": "String", "rc": "std::rc::Rc<u8>", "cell": "std::cell::Cell<u8>", "rawptr": "*const u8", "noclone": "NoClone"}
+ELEM = {"u8": "u8", "string": "String", "rc": "std::rc::Rc<u8>", "cell": "std::cell::Cell<u8>", "rawptr": "*const u8", "noclone": "NoClone", "mutexguard": "std::sync::MutexGuard<'static, u8>"}
 
 
 def trait_program(d):
